@@ -30,6 +30,13 @@ var (
 	fileContent = "F1LE-C0NTENT-7731"
 )
 
+// fileToken stands for the absolute path of the secret file inside protocol lines (the real path
+// differs from run to run); it is expanded when a case is run and folded back in the answer.
+const fileToken = "@SECRETFILE@"
+
+func expandTok(s string) string { return strings.ReplaceAll(s, fileToken, secretFilePath()) }
+func foldTok(s string) string   { return strings.ReplaceAll(s, secretFilePath(), fileToken) }
+
 func secretFilePath() string {
 	fileOnce.Do(func() {
 		dir, err := os.MkdirTemp(".", "c18secret")
@@ -53,7 +60,7 @@ var tmplPieces = []string{
 
 func attackerValues() []string {
 	return []string{
-		"", "plain", "{env." + secretEnv + "}", "{file." + secretFilePath() + "}", "{http.vars.v}", "{http.request.header.X-In}",
+		"", "plain", "{env." + secretEnv + "}", "{file." + fileToken + "}", "{http.vars.v}", "{http.request.header.X-In}",
 		"{http.request.uri.query.q}", "{{env." + secretEnv + "}}", "\\{env." + secretEnv + "}", "{env." + secretEnv, "}", "{", "a}b{c",
 		"{zz.unk}", "x{env." + secretEnv + "}y",
 	}
@@ -87,7 +94,7 @@ func runHTTP(line string, f []string) core.Outcome {
 		}
 		v[i] = s
 	}
-	bodyT, hdrT, varT, xin, q, path, secret := v[0], v[1], v[2], v[3], v[4], v[5], v[6]
+	bodyT, hdrT, varT, xin, q, path, secret := v[0], v[1], v[2], expandTok(v[3]), expandTok(v[4]), expandTok(v[5]), v[6]
 	os.Setenv(secretEnv, secret)
 	defer os.Unsetenv(secretEnv)
 
@@ -115,7 +122,7 @@ func runHTTP(line string, f []string) core.Outcome {
 	if hv := rec.Header()["X-Out"]; len(hv) > 0 {
 		hout = hv[0]
 	}
-	o.Impl = "ok " + core.Hex(body) + " " + core.Hex(hout)
+	o.Impl = "ok " + core.Hex(foldTok(body)) + " " + core.Hex(foldTok(hout))
 
 	tmplAll := bodyT + "\x00" + hdrT + "\x00" + varT
 	attacker := xin + "\x00" + q + "\x00" + path
@@ -164,7 +171,7 @@ func runMatcher(line string, f []string) core.Outcome {
 		}
 		v[i] = s
 	}
-	key, mval, varV, xin, q, secret := v[0], v[1], v[2], v[3], v[4], v[5]
+	key, mval, varV, xin, q, secret := v[0], v[1], expandTok(v[2]), expandTok(v[3]), expandTok(v[4]), v[5]
 	os.Setenv(secretEnv, secret)
 	defer os.Unsetenv(secretEnv)
 
@@ -211,7 +218,7 @@ func runMatcher(line string, f []string) core.Outcome {
 		b = "1"
 		o.Tags = append(o.Tags, "vars-matched")
 	}
-	o.Impl = "ok " + b + " " + core.Hex(captured)
+	o.Impl = "ok " + b + " " + core.Hex(foldTok(captured))
 	if strings.ContainsAny(raw, "{}") {
 		o.Tags = append(o.Tags, "matcher-value-has-braces")
 	}
@@ -260,7 +267,7 @@ func runHTTP2(line string, f []string) core.Outcome {
 		return core.Outcome{Impl: "bad-op"}
 	}
 	bodyT, varT, secret := v[0], v[1], v[6]
-	reqs := [][2]string{{v[2], v[3]}, {v[4], v[5]}}
+	reqs := [][2]string{{expandTok(v[2]), expandTok(v[3])}, {expandTok(v[4]), expandTok(v[5])}}
 	os.Setenv(secretEnv, secret)
 	defer os.Unsetenv(secretEnv)
 
@@ -293,7 +300,7 @@ func runHTTP2(line string, f []string) core.Outcome {
 		}
 		outs = append(outs, b)
 	}
-	o := core.Outcome{Impl: "ok " + core.Hex(outs[0]) + " " + core.Hex(outs[1]), Tags: []string{"op:http2", "varkind:" + kind}}
+	o := core.Outcome{Impl: "ok " + core.Hex(foldTok(outs[0])) + " " + core.Hex(foldTok(outs[1])), Tags: []string{"op:http2", "varkind:" + kind}}
 	// oracle 1: history independence — request 2 on the used handlers = request 2 on fresh handlers
 	fv, fr := mkHandlers()
 	fresh, _ := serve(fv, fr, reqs[1][0], reqs[1][1])
